@@ -265,7 +265,6 @@ package dispatcher
 //@   ensures[C13] e != nil && e.SourceId == sourceID && e.DestinationId == destID
 //@   ensures[C13] e.Count == cntOf(d, k)
 
-
 // The direct query returns the entry exactly when it is non-zero: a successful answer is the stored
 // entry of exactly the requested key and that entry is non-zero; "not found" is answered only when no
 // non-zero entry is recorded under the key (other errors are malformed requests).
